@@ -48,3 +48,25 @@ class Component:
 
 def emit(components):
     json.dump({"components": [c.result() for c in components]}, sys.stdout, default=str)
+
+
+import contextlib
+import signal
+
+
+class CaseTimeout(BaseException):      # BaseException: library code under test must not be able to swallow it
+    pass
+
+
+@contextlib.contextmanager
+def time_limit(seconds=5):
+    """a case that does not return within the limit counts as a violation (non-termination), not as a hang of the check"""
+    def handler(signum, frame):
+        raise CaseTimeout()
+    old = signal.signal(signal.SIGALRM, handler)
+    signal.setitimer(signal.ITIMER_REAL, seconds, 0.5)       # re-fires every 0.5 s in case the first one is swallowed
+    try:
+        yield
+    finally:
+        signal.setitimer(signal.ITIMER_REAL, 0)
+        signal.signal(signal.SIGALRM, old)
